@@ -156,6 +156,110 @@ EXPR_HOOKS.append(_h_int_literal_num)
 STMT_HOOKS.insert(0, _h_track_assign)
 STMT_HOOKS.append(_h_assert_tracked)
 
+# ---- the dispatch layer of utils/volumetric_object.py: volumetric objects are IMMUTABLE TERMS `Py.VObj` (a sphere = its node, a frustum = the pair
+# (node, child), a composite = its class name and its two operands `obj1`, `obj2`) -------------------------------------------------------------
+#   (G1) `isinstance(x, C)` on a `VObj`: the object's class is `C` or one of its subclasses; the class hierarchy (every `class A(B, …)` of the
+#        source file, `Generic[…]`-style subscripts stripped) is READ FROM THE SOURCE on every run and written into the test.
+#   (G2) `C(a, b)` with `C` a class of the source file listed in `OBJ_COMPOSITES` and `a`, `b` objects: the composite term of class `C`.
+#   (G3) `super().m(args)` / `return super().m(args)` in a method of class `C`: the translated method `m` of the nearest base class of `C` (in the
+#        order of the `class` statement, depth first) that defines `m`; exceptions propagate (`Py.bindX`).
+#   (G4) `x.obj1`, `x.obj2` on a `VObj`: the operands of a composite (`none` = AttributeError on a primitive).
+def _class_table(tr):
+    p = REPO / tr.spec.file
+    if p not in _AST_CACHE:
+        _AST_CACHE[p] = ast.parse(p.read_text())
+    out = {}
+    for nd in _AST_CACHE[p].body:
+        if isinstance(nd, ast.ClassDef):
+            bases = []
+            for b in nd.bases:
+                while isinstance(b, ast.Subscript):
+                    b = b.value
+                if isinstance(b, ast.Name):
+                    bases.append(b.id)
+            out[nd.name] = (bases, {x.name for x in nd.body if isinstance(x, ast.FunctionDef)})
+    return out
+
+
+def _hier_literal(tr):
+    return "[" + ", ".join(f"({lean_string(c)}, [{', '.join(lean_string(b) for b in bs)}])" for c, (bs, _) in _class_table(tr).items()) + "]"
+
+
+def _h_isinstance_vobj(tr, e, want):
+    if not (isinstance(e, ast.Call) and isinstance(e.func, ast.Name) and e.func.id == "isinstance" and len(e.args) == 2 and not e.keywords):
+        return None
+    s0, c, t = tr.tr(e.args[0])
+    if t != "VObj":
+        return None
+    if not (isinstance(e.args[1], ast.Name) and e.args[1].id in _class_table(tr)):
+        raise Untranslatable(f"{tr.spec.lean}: `{ast.unparse(e)}`: not a class of {tr.spec.file}")
+    return s0, f"(Py.VObj.isA {_hier_literal(tr)} {c} {lean_string(e.args[1].id)})", "Bool"
+
+
+OBJ_COMPOSITES = set()      # classes whose instances are the composite terms (their `__init__(self, obj1, obj2)` stores the two operands)
+METHOD_SPECS = {}           # (class, method) -> lean name of its translation
+
+
+def _h_composite_ctor(tr, e, want):
+    if not (isinstance(e, ast.Call) and isinstance(e.func, ast.Name) and e.func.id in OBJ_COMPOSITES and len(e.args) == 2 and not e.keywords):
+        return None
+    if e.func.id not in _class_table(tr):
+        raise Untranslatable(f"{tr.spec.lean}: `{e.func.id}` is no class of {tr.spec.file}")
+    s1, a, ta = tr.tr(e.args[0]); s2, b, tb = tr.tr(e.args[1])
+    if ta != "VObj" or tb != "VObj":
+        raise Untranslatable(f"{tr.spec.lean}: `{ast.unparse(e)}` of {ta}, {tb}")
+    return s1 + s2, f"(Py.VObj.node {lean_string(e.func.id)} {a} {b})", "VObj"
+
+
+def _super_target(tr, meth):
+    tab = _class_table(tr)
+    def find(c):
+        for b in tab.get(c, ([], set()))[0]:
+            if b in tab and meth in tab[b][1]:
+                return b
+            r = find(b)
+            if r is not None:
+                return r
+        return None
+    return find(tr.spec.cls)
+
+
+def _h_super_call(tr, e, want):
+    if not (isinstance(e, ast.Call) and isinstance(e.func, ast.Attribute) and ast.unparse(e.func.value) == "super()" and tr.spec.cls):
+        return None
+    base = _super_target(tr, e.func.attr)
+    if base is None or (base, e.func.attr) not in METHOD_SPECS:
+        raise Untranslatable(f"{tr.spec.lean}: `{ast.unparse(e)}`: `{e.func.attr}` of {base} is not translated")
+    callee = by_lean_global[METHOD_SPECS[(base, e.func.attr)]]
+    if e.keywords or len(e.args) + 1 != len(callee.params) or callee.fparams or callee.fuel or callee.out or not (callee.raises and tr.spec.raises):
+        raise Untranslatable(f"{tr.spec.lean}: `{ast.unparse(e)}`")
+    steps, codes = [], ["v.self"]
+    for x, pn in zip(e.args, callee.params[1:]):
+        s0, c, t = tr.tr(x, parse_type(callee.vars[pn]))
+        if t != parse_type(callee.vars[pn]):
+            raise Untranslatable(f"{tr.spec.lean}: `{ast.unparse(e)}`: `{pn}` is {t}")
+        steps += s0; codes.append(c)
+    n = tr.bindname()
+    steps.append(f"Py.bindX ({callee.lean} {' '.join(codes)}) v fun {n} =>")
+    return steps, n, parse_type(callee.ret)
+
+
+def _h_operand(tr, e, want):
+    if not (isinstance(e, ast.Attribute) and e.attr in ("obj1", "obj2") and isinstance(e.ctx, ast.Load)):
+        return None
+    s0, c, t = tr.tr(e.value)
+    if t != "VObj":
+        return None
+    n = tr.bindname()
+    return s0 + [f"Py.bind (Py.VObj.{e.attr} {c}) fun {n} =>"], n, "VObj"
+
+
+SHOW_TYPE_HOOKS.append(lambda t: "Py.VObj" if t == "VObj" else None)
+EXPR_HOOKS.append(_h_isinstance_vobj)
+EXPR_HOOKS.append(_h_composite_ctor)
+EXPR_HOOKS.append(_h_super_call)
+EXPR_HOOKS.append(_h_operand)
+
 # ============================================================================ the specs =======================================================
 _VOL = "swcgeom/analysis/volume.py"
 _VFM = "AlgoVolFront"
@@ -194,3 +298,52 @@ spec(lean="get_volume_mc_only", module=_VFM, file=_VOL, func="_get_volume_frustu
      subst={"data.sum() / n_samples * np.subtract(vmax, vmin).prod()": ("(mcScene v.scene)", "K")},
      doc=f"`{_VOL}::_get_volume_frustum_cone_mc_only` (the tree is its columns; the scene is the list of shapes; the sampling of the finished scene is `mcScene`)")
 FRONT_CALLERS.add("get_volume_mc_only")
+
+# --- utils/volumetric_object.py: which composite object `a.union(b)` / `a.intersect(b)` builds (or which exception is raised)
+_VO = "swcgeom/utils/volumetric_object.py"
+OBJ_COMPOSITES |= {"VolSDFUnion", "VolSDFIntersection", "VolSDFDifference", "VolSphere2Union", "VolSphere2Intersection",
+                   "VolSphereFrustumConeUnion", "VolSphereFrustumConeIntersection"}
+for _cls, _ms in (("VolSDFObject", ["union", "intersect", "subtract"]), ("VolSphere", ["union", "intersect"]), ("VolFrustumCone", ["union", "intersect"])):
+    for _m in _ms:
+        _ln = {"VolSDFObject": "sdf", "VolSphere": "sphere", "VolFrustumCone": "frustum"}[_cls] + "_" + _m
+        METHOD_SPECS[(_cls, _m)] = _ln
+        spec(lean=_ln, module=_VFM, file=_VO, cls=_cls, func=_m, params=["self", "obj"], vars={"self": "VObj", "obj": "VObj"}, ret="VObj", raises=True,
+             doc=f"`{_VO}::{_cls}.{_m}` (objects are the terms `Py.VObj`)")
+
+# --- the `_get_volume` of the composites and the cache of `VolObject.get_volume`.  TRUSTED GLUE (every key is the exact source text):
+#   `<x>.get_volume()` on an operand -> `getVolume <x>` (the volume of an object - virtual dispatch and cache - as a pure parameter);
+#   `VolSphereFrustumConeIntersection.calc_concentric_intersect_volume(a, b)` / `self.calc_concentric_intersect_volume(a, b)` -> `concentric a b`,
+#   `VolSphere2Intersection.calc_intersect_volume(a, b)` -> `lens a b` (the closed forms: harness/translate.py, C13);
+#   the four `np.allclose(…)` tests -> the parameters `sameC1`, `sameR1`, `sameC2`, `sameR2` of the two operands;
+#   `super()._get_volume()` of the sphere-frustum intersection -> `mcVolume self` (VolMCObject._get_volume, the Monte-Carlo estimator);
+#   in `VolObject.get_volume`: `self.volume` is the variable `volume` (returned with the result), `self._get_volume()` -> `compute`,
+#   `len(kwargs)` -> 0 and `self._get_volume(**kwargs)` -> `compute` (the instantiation "called without keyword arguments").
+_GVF = ["(getVolume : Py.VObj → K)", "(concentric : Py.VObj → Py.VObj → K)", "(lens : Py.VObj → Py.VObj → K)", "(mcVolume : Py.VObj → K)",
+        "(sameC1 : Py.VObj → Py.VObj → Bool)", "(sameR1 : Py.VObj → Py.VObj → Bool)", "(sameC2 : Py.VObj → Py.VObj → Bool)", "(sameR2 : Py.VObj → Py.VObj → Bool)"]
+_OPS = {"self.obj1.get_volume()": ("(getVolume o1_)", "K", ["Py.bind (Py.VObj.obj1 v.self) fun o1_ =>"]),
+        "self.obj2.get_volume()": ("(getVolume o2_)", "K", ["Py.bind (Py.VObj.obj2 v.self) fun o2_ =>"])}
+spec(lean="sfu_get_volume", module=_VFM, file=_VO, cls="VolSphereFrustumConeUnion", func="_get_volume", params=["self"], num_tparams=["K"], fparams=_GVF,
+     vars={"self": "VObj"}, ret="K",
+     subst=dict(_OPS, **{"VolSphereFrustumConeIntersection.calc_concentric_intersect_volume(self.obj1, self.obj2)":
+                         ("(concentric a_ b_)", "K", ["Py.bind (Py.VObj.obj1 v.self) fun a_ =>", "Py.bind (Py.VObj.obj2 v.self) fun b_ =>"])}),
+     doc=f"`{_VO}::VolSphereFrustumConeUnion._get_volume` (inclusion–exclusion at the union node; the volumes of the operands and the closed form are parameters)")
+spec(lean="s2u_get_volume", module=_VFM, file=_VO, cls="VolSphere2Union", func="_get_volume", params=["self"], num_tparams=["K"], fparams=_GVF,
+     vars={"self": "VObj"}, ret="K",
+     subst=dict(_OPS, **{"VolSphere2Intersection.calc_intersect_volume(self.obj1, self.obj2)":
+                         ("(lens a_ b_)", "K", ["Py.bind (Py.VObj.obj1 v.self) fun a_ =>", "Py.bind (Py.VObj.obj2 v.self) fun b_ =>"])}),
+     doc=f"`{_VO}::VolSphere2Union._get_volume` (inclusion–exclusion at the union node)")
+_AB = ["Py.bind (Py.VObj.obj1 v.self) fun a_ =>", "Py.bind (Py.VObj.obj2 v.self) fun b_ =>"]
+spec(lean="sfi_get_volume", module=_VFM, file=_VO, cls="VolSphereFrustumConeIntersection", func="_get_volume", params=["self"], num_tparams=["K"], fparams=_GVF,
+     vars={"self": "VObj"}, ret="K",
+     subst={"np.allclose(self.obj1.center, self.obj2.c1)": ("(sameC1 a_ b_)", "Bool", _AB),
+            "np.allclose(self.obj1.radius, self.obj2.r1)": ("(sameR1 a_ b_)", "Bool", _AB),
+            "np.allclose(self.obj1.center, self.obj2.c2)": ("(sameC2 a_ b_)", "Bool", _AB),
+            "np.allclose(self.obj1.radius, self.obj2.r2)": ("(sameR2 a_ b_)", "Bool", _AB),
+            "self.calc_concentric_intersect_volume(self.obj1, self.obj2)": ("(concentric a_ b_)", "K", _AB),
+            "super()._get_volume()": ("(mcVolume v.self)", "K")},
+     doc=f"`{_VO}::VolSphereFrustumConeIntersection._get_volume` (closed form when the sphere sits on one end of the frustum, Monte Carlo otherwise)")
+spec(lean="obj_get_volume", module=_VFM, file=_VO, cls="VolObject", func="get_volume", params=["volume"], out=["volume"], num_tparams=["K"],
+     fparams=["(compute : K)"], vars={"volume": "Option K"}, ret="K", stores={"self.volume": "volume"},
+     subst={"self.volume": ("v.volume", "Option K"), "self._get_volume()": ("compute", "K"), "self._get_volume(**kwargs)": ("compute", "K"),
+            "len(kwargs)": ("(0 : Int)", "Int")},
+     doc=f"`{_VO}::VolObject.get_volume` called without keyword arguments (the cache `self.volume` is the variable `volume`; `self._get_volume()` is `compute`)")
